@@ -321,6 +321,8 @@ def _gen_case(rng, cls=None, nops=None):
         v["falsy"] = True                             # agents whose truth value is False (__len__ == 0 / __bool__ False)
     if rng.random() < 0.15:
         v["raise_first"] = True                       # every draw is preceded by a draw aborted by an exception in the portrayal
+    if rng.random() < 0.5:
+        v["entry"] = rng.randint(1, 1000)            # rotate through draw_space / the per-space drawers, with and without ax
     if layer is not None and rng.random() < 0.35:
         v["layer_dtype"] = rng.choice(["float", "bool"])
         if v["layer_dtype"] == "bool":
@@ -787,6 +789,11 @@ def run_impl(case):
             for y in range(sp["h"]):
                 layer.data[x, y] = ldata[x][y]
 
+    draw_count = [0]
+    if (case.get("variant") or {}).get("entry") is not None:
+        import matplotlib.pyplot as plt
+
+        plt.close("all")          # nothing left over from an earlier history of this worker
     layer_portrayals = {}     # settings -> the one propertylayer_portrayal dict a user would define once and reuse
     json_key = lambda v: repr(v)  # noqa: E731
     agents = {}      # id -> agent object (in the space)
@@ -924,9 +931,33 @@ def run_impl(case):
                 draw_space(space, broken, propertylayer_portrayal=layer_portrayal, ax=fig0.add_subplot(), **draw_kwargs())
             except RuntimeError:
                 pass
-        fig = lib["Figure"]()
-        ax = fig.add_subplot()
-        draw_space(space, portrayal_fn, propertylayer_portrayal=layer_portrayal, ax=ax, **draw_kwargs())
+        # every drawing entry point, with an explicit Axes and without one (pyplot creates the figure); figures stay
+        # open until the end of the history, other figures / a current axes that already has artists may exist
+        entry = variant.get("entry")
+        mode = 0 if entry is None else (entry + draw_count[0]) % 4
+        draw_count[0] += 1
+        if layer_portrayal is not None:
+            mode = mode % 2                      # layers are drawn through draw_space only
+        if mode in (1, 3) and (entry + draw_count[0]) % 3 == 0:
+            import matplotlib.pyplot as plt
+
+            decoy = plt.figure().add_subplot()    # becomes the current axes and already holds a marker
+            decoy.scatter([0.0], [0.0], s=9.0, c="tab:blue", marker="o", zorder=1)
+        if mode in (0, 2):
+            fig = lib["Figure"]()
+            ax_arg = fig.add_subplot()
+        else:
+            ax_arg = None
+        if mode in (0, 1):
+            ax = draw_space(space, portrayal_fn, propertylayer_portrayal=layer_portrayal, ax=ax_arg, **draw_kwargs())
+        else:
+            import mesa.visualization.mpl_space_drawing as msd
+
+            fn = {"Orth": msd.draw_orthogonal_grid, "Hex": msd.draw_hex_grid, "Net": msd.draw_network,
+                  "Cont": msd.draw_continuous_space, "Voro": msd.draw_voronoi_grid}[fam]
+            ax = fn(space, portrayal_fn, ax=ax_arg, **draw_kwargs())
+        if ax is None or (ax_arg is not None and ax is not ax_arg):
+            raise _Bad("the drawing function did not return the Axes it drew on")
         return ax
 
     def component(backend, dflt, i):
@@ -1412,6 +1443,10 @@ def run_impl(case):
                 continue
             fail(f"C20/{kind}/unexpected-exception" if kind in ("check", "split", "creator", "bind") else f"C20/{kind}/{fam}/unexpected-exception", i,
                  f"{op} on {cls} {_dims(sp)} with agents {shadow} raised {type(e).__name__}: {e} :: {traceback.format_exc()[-600:]}")
+    if variant.get("entry") is not None:
+        import matplotlib.pyplot as plt
+
+        plt.close("all")
     return {"obs": obs, "failures": failures, "model": not spring}
 
 
